@@ -124,6 +124,9 @@ def domain_reasons(fp, mtext, stexts):
     rs = set()
     if fc.has_dollar([mtext] + list(stexts)):
         rs.add("dollar")
+    import re
+    if re.search(r"(?<![\w.])__[\w.]*__\.[\w.]", mtext):
+        rs.add("reserved-dotted-shell")      # a dotted name whose proper prefix is spelt like a reserved identifier
     try:
         m = fp.parse(input_string=mtext)
         mc = fp.parse(input_string=mtext)
@@ -162,6 +165,8 @@ def domain_reasons(fp, mtext, stexts):
                     pt = getattr(t, "phil_type", None)
                     if pt == "choice":
                         rs.update(choice_reasons(k))
+                        if any(w.quote_token is None and w.value.lstrip("*") in ("#", ";", "{", "}", "\\") for w in k.words):
+                            rs.add("choice-alternative-delimiter")   # an alternative that is a delimiter once its star is gone
                     elif vlib.ty_sx(t)[0] == "other" and not (str(t).startswith("float") or str(t).startswith("int")):
                         rs.add("unmodelled-type")
             if k.multiple:
@@ -569,6 +574,9 @@ CORPUS = [
     _c("t = a\nu = None\n  .type = str\n", ["t = alpha beta gamma delta \"see notes; keep\" 0123456789 0123456789 0123456789 final q x \"a b\" 2024 merged\nu = \"x\ny\" \"merged with the low resolution pass\" \"second attempt with tighter restraints\"\n"], 2),
     # the quoted items "Auto" / "None" are ordinary strings, not the special values
     _c("labels = Auto\n  .type = strings\ntags = Auto\nn = None\n  .type = strings\n", ["labels = \"Auto\"\ntags = \"auto\"\nn = \"None\"\n"], 2),
+    # findings C07-reserved-shell / C07-choice-delimiter (counterexamples of Proofs/FetchDomain.v): the printed result does not parse
+    _c("!__a.b__.c = 1\n", [], 1),
+    _c("c = *# b\n  .type = choice\n", ["c = b\n"], 1),
     # deprecated: outside the domain (hidden in the printed text by design)
     _c("a = 1\n  .deprecated = True\nb = 2\n", ["a = 3\n"], 1),
 ]
